@@ -31,6 +31,12 @@ pub use self::circle2::{Arc2, Circle2};
 pub use self::curve2::{Curve2, CurveStation2};
 pub use self::line2::{intersect_rays, intersection_param, Line2, Segment2};
 
+/// Verification hooks (feature `verif` only): exposes module-private helpers for external checks.
+#[cfg(feature = "verif")]
+pub mod verif_hooks {
+    pub use super::circle2::intersection_line_circle;
+}
+
 pub trait HasBounds2 {
     fn aabb(&self) -> &Aabb2;
 }
